@@ -96,6 +96,125 @@ def tile_rects(gbt):
             for r in range(len(chy)) for c in range(len(chx))}
 
 
+def tile_polys(gbt):
+    """world footprint of every tile as a shapely polygon, from the chunk tuples and the base affine only"""
+    import shapely.geometry as sg
+
+    A = gbt.base.affine
+    return {k: sg.Polygon([A * (x0, y0), A * (x1, y0), A * (x1, y1), A * (x0, y1)])
+            for k, (y0, y1, x0, x1) in tile_rects(gbt).items()}
+
+
+def spec_of(gbt):
+    """tiling description of an existing object: its chunk tuples"""
+    return ("v", tuple(int(v) for v in gbt.chunks[0]), tuple(int(v) for v in gbt.chunks[1]))
+
+
+def check_tiling_object(R: Run, t2, chy, chx, case, rng):
+    """two-sided oracle for a (derived) RoiTiles object: shape, base, chunks, every region, tile shapes and locate have
+    to be those of the tiling of the rectangle with chunk tuples (chy, chx), counted from 0"""
+    oy, ox = [0], [0]
+    for c_ in chy:
+        oy.append(oy[-1] + c_)
+    for c_ in chx:
+        ox.append(ox[-1] + c_)
+    Ty, Tx = len(chy), len(chx)
+    probs = []
+    if guarded(lambda: str(tuple(t2.shape.yx))) != str((Ty, Tx)):
+        probs.append(f"shape {guarded(lambda: str(tuple(t2.shape.yx)))} != {(Ty, Tx)}")
+    if guarded(lambda: str(tuple(int(v) for v in t2.base.yx))) != str((oy[-1], ox[-1])):
+        probs.append(f"base {guarded(lambda: str(tuple(t2.base.yx)))} != {(oy[-1], ox[-1])}")
+    if Ty and Tx and guarded(lambda: str((list(t2.chunks[0]), list(t2.chunks[1])))) != str((list(chy), list(chx))):
+        probs.append(f"chunks {guarded(lambda: str(t2.chunks))} != {(chy, chx)}")
+    for r in range(Ty):
+        for c in range(Tx):
+            want = f"{oy[r]}:{oy[r + 1]} {ox[c]}:{ox[c + 1]}"
+            got = guarded(lambda: " ".join(f"{int(v.start)}:{int(v.stop)}" for v in t2[r, c]))
+            if got != want:
+                probs.append(f"[{r},{c}] = {got} != {want}")
+            wsh = f"{oy[r + 1] - oy[r]} {ox[c + 1] - ox[c]}"
+            gsh = guarded(lambda: "{} {}".format(*t2.tile_shape((r, c)).yx))
+            if gsh != wsh:
+                probs.append(f"tile_shape({r},{c}) = {gsh} != {wsh}")
+    pix = [(y, x) for y in range(oy[-1]) for x in range(ox[-1])]
+    if len(pix) > 60:
+        pix = rng.sample(pix, 60) + [(0, 0), (oy[-1] - 1, ox[-1] - 1)]
+    for (y, x) in pix:
+        wr = max(i for i in range(Ty) if oy[i] <= y < oy[i + 1])
+        wc = max(i for i in range(Tx) if ox[i] <= x < ox[i + 1])
+        got = guarded(lambda: "{} {}".format(*(int(v) for v in t2.locate((y, x)))))
+        if got != f"{wr} {wc}":
+            probs.append(f"locate({y},{x}) = {got} != {wr} {wc}")
+    for (y, x) in ((-1, 0), (oy[-1], 0), (0, ox[-1])):
+        got = guarded(lambda: str(t2.locate((y, x))))
+        if got != "ERR:IndexError":
+            probs.append(f"locate({y},{x}) = {got}, expected IndexError")
+    R.oracle(not probs, "derived-tiling-wrong", case, "; ".join(probs[:6]), sig="derived|" + case.get("how", ""))
+    return not probs
+
+
+def derive(R: Run, Rm, GeoBox, GeoboxTiles, Affine, rng):
+    """a tiled GeoBox derived from a parent by crop / clip that does not start at tile (0, 0); returns
+    (derived GeoboxTiles, parent, description) after checking the derived objects structurally (two-sided)"""
+    kind = rng.choice("rv")
+    if kind == "r":
+        sy, sx = (rng.randint(5, 14), rng.randint(1, 4)), (rng.randint(5, 14), rng.randint(1, 4))
+        chy = [sy[1]] * (-(-sy[0] // sy[1]) - 1) + [sy[0] - (-(-sy[0] // sy[1]) - 1) * sy[1]]
+        chx = [sx[1]] * (-(-sx[0] // sx[1]) - 1) + [sx[0] - (-(-sx[0] // sx[1]) - 1) * sx[1]]
+    else:
+        chy = [rng.choice([1, 2, 3, 0, 2]) for _ in range(rng.randint(3, 6))]
+        chx = [rng.choice([1, 2, 4, 0, 3]) for _ in range(rng.randint(3, 6))]
+        if sum(chy) == 0 or sum(chx) == 0:
+            chy[0], chx[0] = 2, 2
+        sy, sx = tuple(chy), tuple(chx)
+    res = rng.choice([1, 2, 0.5])
+    A = Affine(res, 0, rng.randint(-40, 40) * res, 0, -res, rng.randint(-40, 40) * res)
+    parent = mk_gbt(GeoBox, GeoboxTiles, (kind, sy, sx), A)
+    Ty, Tx = len(chy), len(chx)
+    if Ty < 2 or Tx < 2:
+        return None
+    a, c = rng.randint(1, Ty - 1), rng.randint(0 if rng.random() < 0.3 else 1, Tx - 1)
+    b, d = rng.randint(a + 1, Ty), rng.randint(c + 1, Tx)
+    how = rng.choice(["crop", "clip", "roi.crop", "clip_tiles"])
+    sub_y, sub_x = chy[a:b], chx[c:d]
+    if sum(sub_y) == 0 or sum(sub_x) == 0:
+        return None
+    case = {"parent": [kind, list(sy), list(sx)], "A": aff_s(A), "how": how, "block": [a, b, c, d]}
+    sel = [(a, c), (b - 1, d - 1)] + [(rng.randint(a, b - 1), rng.randint(c, d - 1)) for _ in range(rng.randint(0, 2))]
+    try:
+        if how == "crop":
+            g2 = parent.crop[a:b, c:d]
+        elif how == "clip":
+            g2, new = parent.clip(sel)
+            R.oracle([tuple(int(v) for v in p_) for p_ in new] == [(r - a, cc - c) for r, cc in sel], "derived-tiling-wrong",
+                     dict(case, sel=sel), f"clip re-based indexes {new}", sig="derived|clip-idx")
+        elif how == "roi.crop":
+            t2 = parent.roi.crop((slice(a, b), slice(c, d)))
+            g2 = GeoboxTiles(parent[a:b, c:d], None, _tiles=t2)
+        else:
+            t2, roi, new = Rm.clip_tiles(parent.roi, sel)
+            g2 = GeoboxTiles(parent[roi], None, _tiles=t2)
+    except Exception as e:  # pylint: disable=broad-except
+        R.oracle(False, "derived-tiling-raises", case, repr(e))
+        return None
+    ok = check_tiling_object(R, g2.roi, sub_y, sub_x, case, rng)
+    # the derived GeoBox: shape and exact position inside the parent
+    oy0, ox0 = sum(chy[:a]), sum(chx[:c])
+    wantA = A * Affine.translation(ox0, oy0)
+    okb = tuple(g2.base.shape) == (sum(sub_y), sum(sub_x)) and all(
+        Fraction(u) == Fraction(v) for u, v in zip(tuple(g2.base.affine)[:6], tuple(wantA)[:6]))
+    R.oracle(okb, "derived-geobox-wrong", case, f"base {g2.base.shape} {aff_s(g2.base.affine)}, want "
+             f"{(sum(sub_y), sum(sub_x))} {aff_s(wantA)}", sig="derived|base")
+    for _k in range(3):
+        i, j = rng.randint(0, b - a - 1), rng.randint(0, d - c - 1)
+        g, gp = guarded(lambda: g2[i, j]), guarded(lambda: parent[a + i, c + j])
+        same = (not isinstance(g, str)) and (not isinstance(gp, str)) and tuple(g.shape) == tuple(gp.shape) and all(
+            Fraction(u) == Fraction(v) for u, v in zip(tuple(g.affine)[:6], tuple(gp.affine)[:6]))
+        R.oracle(same, "derived-tile-ne-parent-tile", dict(case, tile=[i, j]),
+                 f"tile ({i},{j}) of the derived grid is not tile ({a + i},{c + j}) of the parent", sig="derived|tile")
+    return g2, parent, case
+
+
 def overlap_len(a0, a1, b0, b1):
     return max(Fraction(0), min(Fraction(a1), Fraction(b1)) - max(Fraction(a0), Fraction(b0)))
 
@@ -140,8 +259,8 @@ def box_queries(R: Run, geom, GeoBox, GeoboxTiles, Affine):
     rng = R.rng
     BoundingBox = geom.BoundingBox
 
-    def one(spec, x1, y1, x2, y2, tag):
-        gbt = mk_gbt(GeoBox, GeoboxTiles, spec, Affine.identity())
+    def one(spec, x1, y1, x2, y2, tag, gbt=None):
+        gbt = gbt if gbt is not None else mk_gbt(GeoBox, GeoboxTiles, spec, Affine.identity())
         bb = BoundingBox(float(x1), float(y1), float(x2), float(y2))
         head = f"{gbt_tok(spec)} {bbox_s(bb)}"
         ny, nx = gbt.base.shape
@@ -216,6 +335,19 @@ def box_queries(R: Run, geom, GeoBox, GeoboxTiles, Affine):
         ys = sorted(q * rng.randint(-8, 4 * ny + 8) for _ in range(2))
         one((kind, sy, sx), xs[0], ys[0], xs[1], ys[1], "2d")
     one(("r", (20, 10), (20, 10)), 100, 100, 120, 120, "2d")
+    # the same queries on DERIVED tilings (crop / clip not starting at tile 0), model = fresh tiling of the sub-chunks
+    from odc.geo import roi as Rm
+
+    for _ in range(R.pick(150, 1500)):
+        dv = derive(R, Rm, GeoBox, GeoboxTiles, Affine, rng)
+        if dv is None:
+            continue
+        g2, _parent, _case = dv
+        ny, nx = g2.base.shape
+        for _k in range(R.pick(4, 8)):
+            xs = sorted(q * rng.randint(-6, 4 * nx + 6) for _ in range(2))
+            ys = sorted(q * rng.randint(-6, 4 * ny + 6) for _ in range(2))
+            one(spec_of(g2), xs[0], ys[0], xs[1], ys[1], "derived-" + _case["how"], gbt=g2)
     # doubles a hair away from pixel / tile edges, image borders and half pixels, tiny and huge magnitudes
     # (floor / ceil of a double is exact, so model == code is still required)
     deltas = [0.0, 1e-6, 1e-9, 1e-10, 1e-11, 1e-13, 2.0**-40]
@@ -344,9 +476,10 @@ def brute_deps(dst, src, thr, min_span=0.0):
     Sa = src.base.affine
     det = abs(Sa.determinant)
     out = {}
-    sext = {k: src[k].extent.geom for k in np.ndindex(src.shape.shape)}
-    for d in np.ndindex(dst.shape.shape):
-        de = dst[d].extent.geom
+    # footprints from the chunk tuples and the base affine, not from the tile lookup under test
+    sext = tile_polys(src)
+    dext = tile_polys(dst)
+    for d, de in dext.items():
         if de.area == 0:
             continue
         for s, se in sext.items():
@@ -373,10 +506,13 @@ def grid_pairs(R: Run, geom, GeoBox, GeoboxTiles, Affine):
         pool = reg2 if kind == "r" else [v for v in var if sum(v) >= 2]
         return (kind, rng.choice(pool), rng.choice(pool))
 
-    def pair_case(dspec, sspec, D, S, tag, exact=True, crs_d="EPSG:3857", crs_s="EPSG:3857"):
-        dst = mk_gbt(GeoBox, GeoboxTiles, dspec, D, crs_d)
-        src = mk_gbt(GeoBox, GeoboxTiles, sspec, S, crs_s)
+    def pair_case(dspec, sspec, D, S, tag, exact=True, crs_d="EPSG:3857", crs_s="EPSG:3857", dst=None, src=None, extra=None):
+        prebuilt = dst is not None
+        dst = dst if dst is not None else mk_gbt(GeoBox, GeoboxTiles, dspec, D, crs_d)
+        src = src if src is not None else mk_gbt(GeoBox, GeoboxTiles, sspec, S, crs_s)
         case = {"dspec": dspec, "sspec": sspec, "D": aff_s(D), "S": aff_s(S), "tag": tag, "crs": [crs_d, crs_s]}
+        if prebuilt:
+            case["derived"] = extra
         res = []
 
         def f():
@@ -501,6 +637,70 @@ def grid_pairs(R: Run, geom, GeoBox, GeoboxTiles, Affine):
                 pair_case(dspec, sspec, far, S, "rotated-disjoint", exact=False)
             continue
         pair_case(dspec, sspec, D, S, tag)
+
+    # the SAME GeoBox cut into different tilings (the re-chunk case), both directions: regular vs regular of another
+    # size, equal tile counts with different sizes, regular vs variable
+    def rnd_axis(N, kind):
+        if kind == "r":
+            return (N, rng.randint(1, N + 1))
+        cuts = sorted(rng.sample(range(1, N), min(N - 1, rng.randint(0, 3)))) if N > 1 else []
+        ch = [b_ - a_ for a_, b_ in zip([0] + cuts, cuts + [N])]
+        if rng.random() < 0.3:
+            ch.insert(rng.randint(0, len(ch)), 0)
+        return tuple(ch)
+
+    def same_count_axis(N):
+        """two regular tile sizes giving the same number of tiles"""
+        opts = {}
+        for n in range(1, N + 1):
+            opts.setdefault(-(-N // n), []).append(n)
+        multi = [v for v in opts.values() if len(v) > 1]
+        if not multi:
+            return (N, 1), (N, 1)
+        v = rng.choice(multi)
+        n1, n2 = rng.sample(v, 2)
+        return (N, n1), (N, n2)
+
+    for _ in range(R.pick(250, 2500)):
+        NY, NX = rng.randint(2, 14), rng.randint(2, 14)
+        res = rng.choice([1, 2, 0.5, 10])
+        G = Affine(res, 0, rng.randint(-20, 20) * res, 0, -res, rng.randint(-20, 20) * res)
+        r = rng.random()
+        if r < 0.4:
+            (ay, by), (ax_, bx_) = same_count_axis(NY), same_count_axis(NX)
+            dspec, sspec = ("r", ay, ax_), ("r", by, bx_)
+        elif r < 0.7:
+            dspec, sspec = ("r", rnd_axis(NY, "r"), rnd_axis(NX, "r")), ("r", rnd_axis(NY, "r"), rnd_axis(NX, "r"))
+        else:
+            dspec, sspec = ("r", rnd_axis(NY, "r"), rnd_axis(NX, "r")), ("v", rnd_axis(NY, "v"), rnd_axis(NX, "v"))
+        pair_case(dspec, sspec, G, G, "same-geobox")
+        pair_case(sspec, dspec, G, G, "same-geobox")
+    # large same-GeoBox re-chunk (as in dask re-chunking): 1100 px in 400 px vs 500 px tiles and the like
+    for _ in range(R.pick(10, 100)):
+        NY, NX = rng.choice([1100, 2048, 999, 4097]), rng.choice([1100, 3000, 777])
+        (ay, by), (ax_, bx_) = same_count_axis(NY), same_count_axis(NX)
+        if -(-NY // ay[1]) > 6 or -(-NX // ax_[1]) > 6:
+            ay, by, ax_, bx_ = (NY, 400), (NY, 500), (NX, 400), (NX, 500)
+        G = Affine(10, 0, 500000, 0, -10, 6000000)
+        pair_case(("r", ay, ax_), ("r", by, bx_), G, G, "same-geobox-large", exact=False)
+
+    # DERIVED tilings (crop / clip not starting at tile 0) on either side of grid_intersect
+    from odc.geo import roi as Rm
+
+    for _ in range(R.pick(150, 1500)):
+        dv = derive(R, Rm, GeoBox, GeoboxTiles, Affine, rng)
+        if dv is None:
+            continue
+        g2, parent, dcase = dv
+        other = parent
+        if rng.random() < 0.5:
+            ospec = rnd_spec()
+            pa = parent.base.affine
+            other = mk_gbt(GeoBox, GeoboxTiles, ospec,
+                           Affine(pa.a, 0, pa.c + pa.a * rng.randint(-3, 6), 0, pa.e, pa.f + pa.e * rng.randint(-3, 6)))
+        for dd, ss in ((g2, other), (other, g2)):
+            pair_case(spec_of(dd), spec_of(ss), dd.base.affine, ss.base.affine, "derived-" + dcase["how"], dst=dd, src=ss,
+                      extra=dcase)
 
     # the replay of finding F15
     pair_case(("r", (20, 10), (20, 10)), ("r", (20, 10), (20, 10)), Affine(1, 0, 0, 0, -1, 20), Affine(1, 0, 1000, 0, -1, 20), "disjoint")
@@ -801,6 +1001,106 @@ def crs_kinds_stream(R: Run, geom, GeoBox, GeoboxTiles, Affine):
             R.oracle(not any(deps.values()), "grid-intersect-disjoint-not-empty", case, f"{str(deps)[:200]}", sig="disjoint|crs-kinds")
 
 
+
+# ------------------------------------------------------------------ cross-CRS queries with long curved edges
+CURVED_RASTERS = [
+    # (CRS, origin x, origin y, pixel size, pixels per side, tile size, lon range, lat range of usable query vertices)
+    ("EPSG:3577", -2_000_000, -1_000_000, 1000, 4096, 64, (112, 154), (-42, -10)),
+    ("EPSG:5070", -2_300_000, 3_200_000, 1000, 4096, 64, (-122, -72), (25, 49)),
+    ("EPSG:3035", 2_500_000, 5_400_000, 1000, 4096, 64, (-10, 40), (36, 70)),
+    ("EPSG:32633", -500_000, 7_800_000, 1000, 3072, 48, (3, 27), (40, 68)),
+    ("EPSG:32755", -300_000, 9_500_000, 1000, 3072, 48, (135, 159), (-45, -12)),
+    ("EPSG:3857", 12_300_000, -900_000, 1000, 4096, 64, (112, 146), (-40, -10)),
+]
+
+
+def curved_queries(R: Run, geom, GeoBox, GeoboxTiles, Affine):
+    """Triangles, thin diagonal polygons and large boxes given in EPSG:4326 against continental rasters in conic /
+    azimuthal / transverse CRSs with tiles that are small compared with the bulge of the projected outline.  odc-geo maps
+    a query vertex by vertex, so the reference is the polygon through the pyproj images of the vertices: every tile that
+    overlaps it, or contains a point sampled densely along its outline / interior, has to be returned, and no tile
+    away from it."""
+    import shapely
+    import shapely.geometry as sg
+    from pyproj import Transformer
+
+    rng = R.rng
+    for (crs, x0, y0, res, n, tile, lon_r, lat_r) in CURVED_RASTERS:
+        gb = GeoBox((n, n), Affine(res, 0, x0, 0, -res, y0), crs)
+        gbt = GeoboxTiles(gb, (tile, tile))
+        T = -(-n // tile)
+        tr = Transformer.from_crs("EPSG:4326", crs, always_xy=True)
+        ii, jj = np.meshgrid(np.arange(T), np.arange(T), indexing="ij")
+        bx0 = x0 + res * jj * tile
+        bx1 = np.minimum(x0 + res * (jj + 1) * tile, x0 + res * n)
+        by1 = y0 - res * ii * tile
+        by0 = np.maximum(y0 - res * (ii + 1) * tile, y0 - res * n)
+        boxes = shapely.box(bx0, by0, bx1, by1)
+
+        def rl():
+            return rng.uniform(*lon_r), rng.uniform(*lat_r)
+
+        for k in range(R.pick(5, 40)):
+            kind = k % 4
+            lo0, lo1 = sorted((rng.uniform(*lon_r), rng.uniform(*lon_r)))
+            la0, la1 = sorted((rng.uniform(*lat_r), rng.uniform(*lat_r)))
+            if lo1 - lo0 < 8:
+                lo0, lo1 = lon_r[0] + 2, lon_r[1] - 2
+            if la1 - la0 < 4:
+                la0, la1 = lat_r[0] + 1, lat_r[1] - 1
+            if kind == 0:      # triangle whose apex sits over the middle of a long parallel edge
+                up = rng.random() < 0.5
+                pts = [(lo0, la0 if up else la1), (lo1, la0 if up else la1), ((lo0 + lo1) / 2 + rng.uniform(-2, 2), la1 if up else la0)]
+            elif kind == 1:    # thin diagonal sliver
+                w = rng.uniform(0.3, 1.5)
+                pts = [(lo0, la0), (lo0 + w, la0), (lo1, la1), (lo1 - w, la1)]
+            elif kind == 2:    # large box (as polygon or as BoundingBox)
+                pts = [(lo0, la0), (lo1, la0), (lo1, la1), (lo0, la1)]
+            else:              # flat wide triangle / random triangle
+                pts = [(lo0, la0), (lo1, la0 + rng.uniform(0, 1)), ((lo0 + lo1) / 2, la0 + rng.uniform(2, 6))]
+            qp = sg.Polygon(pts)
+            if not qp.is_valid or qp.area == 0:
+                continue
+            as_bbox = kind == 2 and rng.random() < 0.5
+            q = geom.BoundingBox(lo0, la0, lo1, la1, "EPSG:4326") if as_bbox else geom.Geometry(qp, "EPSG:4326")
+            verts = [(lo0, la0), (lo0, la1), (lo1, la1), (lo1, la0)] if as_bbox else list(qp.exterior.coords)[:-1]
+            wv = [tr.transform(x, y) for x, y in verts]
+            if not all(math.isfinite(v) for p_ in wv for v in p_):
+                continue
+            chord = sg.Polygon(wv)
+            if not chord.is_valid or chord.area == 0:
+                continue
+            case = {"raster": crs, "tile": tile, "n": n, "lonlat": [[round(x, 6), round(y, 6)] for x, y in verts], "as_bbox": as_bbox}
+            got = guarded(lambda: set(gbt.tiles(q)))
+            if isinstance(got, str):
+                R.oracle(False, "tiles-query-raises", case, f"tiles() raised {got}", sig="curved-raises")
+                continue
+            area = shapely.area(shapely.intersection(boxes, chord)) / (res * res)
+            need = {(int(i), int(j)) for i, j in zip(*np.nonzero(area > 1e-3))}
+            # points sampled densely along the outline (pulled 0.05 px inwards) and in the interior
+            inner = chord.buffer(-0.05 * res)
+            samples = []
+            if not inner.is_empty:
+                bd = inner.boundary
+                samples += [bd.interpolate(t_, normalized=True) for t_ in np.linspace(0, 1, 800, endpoint=False)]
+                bx = chord.bounds
+                cand = [sg.Point(rng.uniform(bx[0], bx[2]), rng.uniform(bx[1], bx[3])) for _ in range(300)]
+                samples += [p_ for p_ in cand if inner.contains(p_)]
+            for p_ in samples:
+                px, py = (p_.x - x0) / res, (y0 - p_.y) / res
+                fx, fy = px - math.floor(px), py - math.floor(py)
+                if 0 <= px < n and 0 <= py < n and min(fx, 1 - fx, fy, 1 - fy) > 0.02:
+                    need.add((int(py // tile), int(px // tile)))
+            miss = sorted(need - got)
+            R.oracle(not miss, "tiles-geom-misses-tile", case,
+                     f"{len(miss)} tiles overlapping the projected query are not returned, e.g. {miss[:6]} ({len(got)} returned)",
+                     sig=f"curved|{crs}|{kind}")
+            far = shapely.distance(boxes, chord) > 1e-6 * res
+            extra = sorted(t_ for t_ in got if far[t_[0], t_[1]])
+            R.oracle(not extra, "tiles-geom-returns-disjoint-tile", case, f"returned tiles away from the query: {extra[:6]}",
+                     sig=f"curved-extra|{crs}")
+
+
 def _maybe_int_exact(x: Fraction, tol: Fraction):
     t = Fraction(math.trunc(x))
     part = x - t
@@ -881,6 +1181,7 @@ def run(R: Run):
     snap_cases(R, Affine)
     grid_pairs(R, geom, GeoBox, GeoboxTiles, Affine)
     crs_kinds_stream(R, geom, GeoBox, GeoboxTiles, Affine)
+    curved_queries(R, geom, GeoBox, GeoboxTiles, Affine)
     R.exhaustive = False
     R.assumptions.append("shapely `disjoint` / `intersection` and pyproj are trusted oracles and model parameters")
     R.assumptions.append("tolerances of snap_affine / is_affine_st are passed as the exact rational value of the doubles")
@@ -891,7 +1192,7 @@ def replay(R: Run, rec) -> int:
     case = rec.get("case") or {}
     key = rec.get("key", "")
     print("replay key:", key, "case:", case)
-    if key in ("grid-intersect-disjoint-not-empty", "grid-intersect-misses-dependency") and "D" in case:
+    if key in ("grid-intersect-disjoint-not-empty", "grid-intersect-misses-dependency") and "D" in case and not case.get("derived"):
         def pa(s):
             return Affine(*[float(Fraction(v)) for v in s.split(";")])
 
